@@ -57,6 +57,9 @@ type Outcome struct {
 	RawStream  *int16
 	RawLen     *int32
 	ThenClose  bool // close the connection after the raw reply
+	// Pieces: the raw reply is written to the socket in pieces that end at these offsets (ascending, inside the frame),
+	// with a short pause after each, so that the proxy's reader sees the frame arrive in several segments
+	Pieces []int
 }
 
 // Rec is one frame received by the backend.
@@ -593,6 +596,29 @@ func (c *Conn) writeRaw(b []byte) {
 	_, _ = c.c.Write(b)
 }
 
+// writePieces writes b in pieces ending at the given offsets; the write lock is held throughout so that no other frame
+// is interleaved.
+func (c *Conn) writePieces(b []byte, ends []int) {
+	c.wmu.Lock()
+	defer c.wmu.Unlock()
+	if c.closed {
+		return
+	}
+	if t, ok := c.c.(*net.TCPConn); ok {
+		_ = t.SetNoDelay(true)
+	}
+	from := 0
+	for _, e := range ends {
+		if e <= from || e >= len(b) {
+			continue
+		}
+		_, _ = c.c.Write(b[from:e])
+		from = e
+		time.Sleep(300 * time.Microsecond)
+	}
+	_, _ = c.c.Write(b[from:])
+}
+
 func (c *Conn) sendMsg(stream int16, msg message.Message) { c.sendMsgMod(stream, msg, nil) }
 
 func (c *Conn) sendMsgMod(stream int16, msg message.Message, mod func(*frame.Frame)) {
@@ -1033,7 +1059,11 @@ func (c *Conn) apply(stream int16, out Outcome, token string) bool {
 				l := uint32(*out.RawLen)
 				b[5], b[6], b[7], b[8] = byte(l>>24), byte(l>>16), byte(l>>8), byte(l)
 			}
-			c.writeRaw(b)
+			if len(out.Pieces) > 0 {
+				c.writePieces(b, out.Pieces)
+			} else {
+				c.writeRaw(b)
+			}
 			if out.ThenClose {
 				return false
 			}
